@@ -691,13 +691,18 @@ func runOnce(cfg *Config, prefix []int) *Exec {
 		}
 	}
 	if x.Stuck == "" {
+		// abort the parked threads ONE AT A TIME: the code under test may recover the sentinel panic
+		// (try/catch, spawn's own recover) and run on until its next hook, and two such threads must
+		// not run harness callbacks or interpreter code side by side
 		for _, t := range alive {
 			if t.pend != nil {
 				t.pend = nil
 				t.wake <- true
+				if !x.waitArrive(1) {
+					break
+				}
 			}
 		}
-		x.waitArrive(len(alive))
 	}
 	cur = nil
 	return x
